@@ -316,11 +316,35 @@ def check_reporters(case, acc, tmpdir):
     df1 = pd.DataFrame({'Equity': xs}, index=ds)
     df2 = pd.DataFrame({'Equity': xs}, index=ds)
     alloc = pd.DataFrame({'EQ:AAA': [0.5] * len(xs), 'EQ:BBB': [0.5] * len(xs)}, index=ds)
+    n = len(xs)
+    bench = [xs[n - 1 - i] * (1.0 + 0.001 * i) * 1.7 for i in range(n)]     # a different curve on the same dates
+    df3 = pd.DataFrame({'Equity': bench}, index=ds)
+    df4 = pd.DataFrame({'Equity': bench}, index=ds)
     with np.errstate(all='ignore'):
         ts_stats = TearsheetStatistics(strategy_equity=df1).get_results(df1)
+        ts_bench = TearsheetStatistics(strategy_equity=df4).get_results(df4)
         path = os.path.join(tmpdir, 'stats.json')
-        js = JSONStatistics(equity_curve=df2, target_allocations=alloc, periods=PERIODS, output_filename=path)
+        js = JSONStatistics(equity_curve=df2, target_allocations=alloc, periods=PERIODS, output_filename=path,
+                            benchmark_curve=df3)
     st = js.statistics['strategy']
+    # every block of the export describes ITS OWN curve
+    for block, curve, tsb in (('strategy', xs, ts_stats), ('benchmark', bench, ts_bench)):
+        b = js.statistics[block]
+        rl_b = d_returns(curve)
+        total = prod1p(rl_b)
+        for nm in ('monthly_agg_returns', 'yearly_agg_returns'):
+            got = prod1p([v for _, v in b[nm]])
+            if not core.close(float(got), total, total):
+                V('json-aggregate-compounding/%s/%s' % (block, nm), '%s.%s compounds to %r, the %s curve\'s daily returns to %r'
+                  % (block, nm, float(got), block, float(total)))
+        for nm in ('sharpe', 'max_drawdown', 'max_drawdown_duration'):
+            if not eqv(float(b[nm]), float(tsb[nm])):
+                V('reporters-disagree/%s/%s' % (block, nm), 'JSON %s.%s=%r, tearsheet of the same curve says %r'
+                  % (block, nm, b[nm], tsb[nm]))
+        vals = [float(v[1]) for v in b['equity_curve']]
+        if vals != [float(v) for v in curve]:
+            V('json-equity/%s' % block, 'JSON %s.equity_curve is not the %s curve' % (block, block))
+        acc.count('C17:json_block_checks')
     # definitions of returns / cumulative returns
     rl = d_returns(xs)
     got_r = [float(v) for v in ts_stats['returns']]
